@@ -386,6 +386,10 @@ def build_datagram(q, qwire, kind, arg, marker, rng_bytes):
         rc = (1, 2, 4, 5)[arg % 4]
         opt = b"\x00" + struct.pack("!HHIH", 41, 1232, (1 + arg % 3) << 24, 0)
         return struct.pack("!HHHHHH", q.id, 0x8000 | rc, 0, 0, 0, 1) + opt
+    if kind == "rcode_noq_opcode":
+        # the rcodes that excuse a missing question do not excuse another opcode
+        rc = (1, 2, 4, 5)[arg % 4]
+        return struct.pack("!HHHHHH", q.id, 0x8000 | ((2 + arg % 3) << 11) | rc, 0, 0, 0, 0)
     if kind == "rcode_noq_nx":
         return struct.pack("!HHHHHH", q.id, 0x8000 | 3, 0, 0, 0, 0)
     if kind == "tc_genuine":
@@ -427,7 +431,7 @@ def build_datagram(q, qwire, kind, arg, marker, rng_bytes):
 
 UDP_KINDS = [
     "genuine", "genuine", "wrong_id", "not_response", "wrong_opcode", "wrong_qtype", "wrong_qclass", "wrong_qname",
-    "qname_case", "garbage", "cut", "bitflip", "trailing", "rcode_noq", "rcode_noq_nx", "rcode_noq_ext", "tc_genuine", "tc_forged",
+    "qname_case", "garbage", "cut", "bitflip", "trailing", "rcode_noq", "rcode_noq_nx", "rcode_noq_ext", "rcode_noq_opcode", "tc_genuine", "tc_forged",
     "tc_cut", "tc_trailing", "icmp", "empty", "forged_addr", "forged_port", "textual", "mcast_other", "extra_question", "dup_question", "noq_noerror", "forged_scope", "forged_flow", "forged_garbage", "forged_tc", "forged_cut",
 ]
 
